@@ -83,7 +83,7 @@ func relayerAddr(i int) string {
 
 func corpus() []Spec {
 	var out []Spec
-	add := func(tag string, ops ...Op) { out = append(out, Spec{Kind: "history", Tag: tag, Ops: ops}) }
+	add := func(tag string, ops ...Op) { out = append(out, Spec{Kind: "history", Tag: tag, Ops: ops, Corpus: true}) }
 	wc := func(name string, rev, h uint64, n int) Op { return Op{K: "write_cons", Name: name, Rev: us(rev), H: us(h), N: n} }
 
 	// D7: heights / revisions whose big-endian bytes contain 0x2F (Tendermint client: consensus state, processed time, iteration key)
